@@ -87,6 +87,10 @@ CHECKS.update({
             "Whole-mempool diagrams are compared (the node compares affected clusters only), cut where cumulative fee starts to fall; test-accept acceptances get only the fee/spend/cluster clauses.",
             "deterministic simulation: real node + mempool under seeded replacement histories; oracle = naive recomputation from mempool snapshots before/after each submission",
             "DESIGN.md §5 C26"),
+    "C04": ("nodesim/block-mutation", "exploration",
+            "For generated valid blocks of 1-300 transactions the engine builds same-header variants (every root-preserving CVE-2012-2459 duplication pattern at all odd levels, witness stripped/altered/added, coinbase reserved value games, wrong/missing/shadowed commitments, the 64-byte-transaction collapse with ground txids, list edits) and delivers variant and genuine copies in seeded orders (header first, variant 0-3 times before/between/after the genuine block, forced or unrequested, withheld and re-delivered later, across reorgs and restarts). After every delivery: the genuine hash is never marked failed and a forced genuine delivery ends stored; what is stored under the hash reads back as exactly the genuine list; a variant is never connected or reported valid; a verdict for a root-indistinguishable variant is BLOCK_MUTATED; IsBlockMutated and FillBlock reject variants; merkle roots, mutation flags and merkle paths equal the model's own implementation.",
+            "The P2P block/cmpctblock handlers are not driven (their gates IsBlockMutated / FillBlock are called directly); no manual invalidation or pruning in the workload.",
+            CHAIN_TECH, "DESIGN.md §5 C04"),
     "C53": ("nodesim/versionbits", "exploration",
             "Real node with per-run TESTDUMMY BIP9 parameters (start/timeout/min_activation_height incl. ALWAYS/NEVER) and seeded block trees of 4-8 periods: signalling counts 107/108/109, period-end MTP aimed at start/timeout -1/0/+1, forks inside periods, reorgs across boundaries, clean restarts (cold cache), cache clears, invalidateblock; every sampled block is answered through the node's warm cache, a fresh cache, a run-long private cache and a raw condition checker: all must agree with each other (query-order independence) and with an independent BIP9 model recomputed from genesis over the reference tree (state, next state, since, statistics, active_since); same state within a period; ACTIVE/FAILED absorbing. A second per-run deployment with period 1-200 / threshold 0..period goes through a raw checker.",
             "Timestamps are constrained by what the node indexes (time > MTP(parent)); other periods than 144/108 only through the raw-checker path; cache concurrency not explored.",
